@@ -88,12 +88,26 @@ def configs(tier):
     for n, (base, _) in K.VARIANTS.items():
         if K.CORPUS[base][2] == "quick" or tier == "thorough":
             cfgs.append((f"core.{n}", "core", n, True))
-    return cfgs
+    # the second comb emitter (regular_comb=False: one always block per TARGET with a target filter - what the Verilator flow of
+    # litex.build.sim converts with): the control / left-hand-side classes where the filter matters, and the whole corpus in thorough
+    sim = []
+    for c in cfgs:
+        if c[1] == "comb" and c[2] in ("ctl_if", "ctl_case", "ctl_arr", "lhs", "constblk") and (tier == "thorough" or c[3] in G.icfgs(tier)[:3]):
+            sim.append((c[0] + SIMCOMB,) + tuple(c[1:]))
+        elif c[1] == "seq" and tier == "thorough":
+            sim.append((c[0] + SIMCOMB,) + tuple(c[1:]))
+        elif c[1] == "core" and c[3] and (tier == "thorough" or c[2] in ("CSRBank", "Packetizer.unaligned", "WishboneShared2x2", "AXIBurst2Beat", "SPIMaster")):
+            sim.append((c[0] + SIMCOMB,) + tuple(c[1:]))
+    return cfgs + sim
+
+
+SIMCOMB = ".simcomb"      # configuration name suffix: convert(..., regular_comb=False)
 
 
 def run_config(cfg, seed, tier):
     selftest()
     kind = cfg[1]
+    L.REGULAR_COMB = not cfg[0].endswith(SIMCOMB)
     if kind == "comb":
         return run_comb(cfg, tier)
     if kind in ("seq", "mem", "core"):
